@@ -597,4 +597,23 @@ theorem warm_cache_loads {α β : Type} (fn fn' : α → Except Err β) (inputs 
   rw [hlab] at this
   rw [specRow_hit fn' s' kv r.2 this, ← hlab]
 
+/-- the child of the shipped code IS the nested independent runs: every inner row on its own copy of the sample's model -/
+theorem mcScanChild_char (w : Worker) (inner : List (Label × Row)) (c : Content) (sample : Row) :
+    mcScanChild true w inner c sample =
+      match applyRow c sample with
+      | .error e => .error e
+      | .ok c1 =>
+        match pureRows w c1 inner with
+        | .error e => .error e
+        | .ok ps => .ok (placeAll [c, c1] ps) := by
+  unfold mcScanChild
+  cases applyRow c sample with
+  | error e => rfl
+  | ok c1 =>
+    simp only [if_true]
+    have := seqScan_char w c1 1 inner [c, c1] (by rfl)
+    unfold seqScan at this
+    rw [shippedCopyFirst_eq] at this
+    exact this
+
 end Mxl.C09
